@@ -214,6 +214,26 @@ CHECKS = {
         "out": ["json.Encoder/Decoder internals", "a Read that returns data and an error", "the TLS record layer"],
         "assumptions": ["net.Conn contract: Write returns err != nil when n < len(b); Read returns n >= 1 with nil error, or 0 with an error"],
     },
+    "C15": {
+        "level_text": "(a) The poll loops of the real ctxConn.Read/Write run against a silent peer with a symbolic clock, a symbolic context deadline and a "
+                      "symbolic cancellation instant: every deadline armed on the socket is at most one poll interval (5 s) ahead and never after the "
+                      "context's deadline, the context is re-examined before every blocking call, and the loop ends with the context's error - hence a "
+                      "return by the deadline, or within one poll interval of a cancellation. (b) in-process Send/Receive/Accept, channel send, "
+                      "ProcessCommand, receiveSession, client FinishSession and EstablishSession, and the TCP listener's Accept are executed with a "
+                      "context that has already ended or ends while they block on a silent / non-reading peer: no path leaves the caller blocked, and "
+                      "the error wraps the context's error.",
+        "level_note": "Trusted: SSA->SMT executor, scheduler (timers fire when no thread can run), z3. Bounds: 3 / 5 poll iterations, queue capacity 1. "
+                      "WebSocket Send/Receive (helper goroutine + gorilla's deadlines), the TLS handshake's duration and lock contention are outside the claim; "
+                      "time is symbolic.",
+        "runs": [
+            {"harness": "HarnessC15Poll", "grid": {"op": [0, 1]}, "params": {"polls": 3}, "reach": ["c15:poll-returned"], "tier": "quick"},
+            {"harness": "HarnessC15Poll", "grid": {"op": [0, 1]}, "params": {"polls": 5}, "reach": ["c15:poll-returned"], "tier": "thorough", "qtimeout": 300},
+            {"harness": "HarnessC15Block", "grid": {"op": [0, 1, 2, 3, 4, 5, 6, 7, 8], "ctxmode": [0, 1]}, "reach": ["c15:operation-returned"]},
+        ],
+        "bounds": {"quick": {"poll_iterations": 3}, "thorough": {"poll_iterations": 5}},
+        "out": ["WebSocket transport", "TLS handshake duration", "lock contention", "wall-clock (time is a symbolic non-decreasing sequence)"],
+        "assumptions": ["a stalled socket call returns a timeout no earlier than the armed deadline"],
+    },
     "C16": {
         "level_text": "The real tcpTransport.Receive / setConn with io.LimitedReader.Read and ctxConn.Read from their SSA, the decoder as a model that reads "
                       "until the next frame is complete: read limit, frame sizes, read-ahead and every read length are symbolic integers. Verdicts: no "
